@@ -115,8 +115,9 @@ PROPS.update({
         "Ok result of the modelled breadth-first traversal (scope-restricted bindings, visited-set pruning by (state, view)), every occurrence of every "
         "compiled non-empty pattern is in the returned list, bound at the position of the occurrence. The three checkers are evaluated by extracted code "
         "on the dump of every automaton the real builder produces; the modelled traversal is compared with ManyMatcher::find_matches as exact sequences. "
-        "Matrices: cert_complete is proved sound w.r.t. the abstract semantics (c02_matrix_partial) and the step to the concrete traversal is decided by "
-        "correspondence and the occurrence oracle. Port graphs: oracle only.",
+        "Matrices and port graphs: cert_complete is proved sound w.r.t. the abstract semantics (c02_matrix_partial, c02_portgraph_partial) and evaluated on "
+        "every dump; the step to the concrete traversal is decided by correspondence with the modelled traversal and the occurrence / embedding oracle "
+        "(port graphs: with the known host-side classes).",
         "Coq proof of run completeness from verified certificates (trace-closure of the BFS + AND-OR completeness certificate) evaluated on the real "
         "automaton + differential correspondence + occurrence oracle",
         ["c02", "pg02", "pgm"]),
